@@ -244,17 +244,17 @@ Section Steps.
   Proof. unfold cset, set_request. destruct (alookup Nat.eqb k (c_data c)); reflexivity. Qed.
 End Steps.
 
-(* expiry window arithmetic: a jittered delay within [95%, 105%] of e, at least one interval, is due
-   (C10: T + floor(j / 1s)) no earlier than floor(0.95 e / 1s) and no later than floor(1.05 e / 1s) ticks *)
-Lemma window_arith (e j : Z) :
-  (e * 95 / 100 <= j <= e * 105 / 100)%Z -> (Z.pos second <= j)%Z ->
-  Z.to_nat (e * 95 / 100 / Z.pos second) <= steps_of second j <= Z.to_nat (e * 105 / 100 / Z.pos second) /\
-  1 <= steps_of second j.
+(* expiry window arithmetic: a jittered delay within [95%, 105%] of e, at least one wheel interval I, is due
+   (C10: T + floor(j / I)) no earlier than floor(0.95 e / I) and no later than floor(1.05 e / I) ticks *)
+Lemma window_arith (I : positive) (e j : Z) :
+  (e * 95 / 100 <= j <= e * 105 / 100)%Z -> (Z.pos I <= j)%Z ->
+  Z.to_nat (e * 95 / 100 / Z.pos I) <= steps_of I j <= Z.to_nat (e * 105 / 100 / Z.pos I) /\
+  1 <= steps_of I j.
 Proof.
   intros [Hlo Hhi] Hj. unfold steps_of. split; [split|].
   - apply Z2Nat.inj_le; [apply Z.div_pos; lia | apply Z.div_pos; lia | apply Z.div_le_mono; lia].
   - apply Z2Nat.inj_le; [apply Z.div_pos; lia | apply Z.div_pos; lia | apply Z.div_le_mono; lia].
-  - apply (C10.Proofs.steps_ge_1 second j Hj).
+  - apply (C10.Proofs.steps_ge_1 I j Hj).
 Qed.
 
 (* the limit chosen at construction never changes *)
@@ -302,3 +302,348 @@ Proof.
   { unfold has_limit, cnew; cbn [c_lru]. destruct (Z.ltb_spec 0 limit); [eauto|lia]. }
   apply (CInv_size _ _ _ HI El).
 Qed.
+
+(* ====================================================================================================
+   The cache on the C10 wheel model: every stored entry has a pending timer, and an entry is dropped
+   for age exactly at the tick its last Set asked for (composition with the C10 refinement invariant).
+   ==================================================================================================== *)
+Section Expiry.
+  Import C10.Spec C10.Proofs.
+  Variable I : positive.
+
+  Notation ws := step_ok.
+  Notation WC := (cache st).
+
+  (* calls within the property: the jittered delay is at least one wheel interval *)
+  Definition valid_cop (o : cop) : Prop :=
+    match o with
+    | KSet _ _ j | KSetX _ _ _ j | KTake _ _ j => (Z.pos I <= j)%Z
+    | _ => True
+    end.
+
+  Lemma tc_remove ts sp k : Inv ts sp ->
+    Inv (fst (timer_call ws ts (ORemove k))) (mkSp (sp_T sp) (aremove Nat.eqb k (sp_timers sp))) /\
+    interval (fst (timer_call ws ts (ORemove k))) = interval ts.
+  Proof.
+    intro H. unfold timer_call. split; [exact (Inv_remove ts sp k H) | exact (step_ok_interval ts (ORemove k))].
+  Qed.
+
+  (* c' was obtained from c by removals only: its keys are keys of c and their abstract timers are untouched *)
+  Definition Surv (c c' : WC) (sp sp' : sst) : Prop :=
+    Inv (c_ts c') sp' /\ interval (c_ts c') = interval (c_ts c) /\ sp_T sp' = sp_T sp /\
+    forall k, In k (keys (c_data c')) ->
+      In k (keys (c_data c)) /\ alookup Nat.eqb k (sp_timers sp') = alookup Nat.eqb k (sp_timers sp).
+
+  Lemma Surv_same c c' sp : c_data c' = c_data c -> c_ts c' = c_ts c -> Inv (c_ts c) sp -> Surv c c' sp sp.
+  Proof.
+    intros E1 E2 H. unfold Surv. rewrite E1, E2. split; [assumption|]. split; [reflexivity|]. split; [reflexivity|].
+    intros k Hk. split; [assumption|reflexivity].
+  Qed.
+
+  Lemma Surv_refl c sp : Inv (c_ts c) sp -> Surv c c sp sp.
+  Proof. apply Surv_same; reflexivity. Qed.
+
+  Lemma Surv_trans c1 c2 c3 sp1 sp2 sp3 : Surv c1 c2 sp1 sp2 -> Surv c2 c3 sp2 sp3 -> Surv c1 c3 sp1 sp3.
+  Proof.
+    intros (A1 & A2 & A3 & A4) (B1 & B2 & B3 & B4). split; [assumption|]. split; [congruence|]. split; [congruence|].
+    intros k Hk. destruct (B4 k Hk) as [Hk2 E2]. destruct (A4 k Hk2) as [Hk1 E1]. split; [assumption|congruence].
+  Qed.
+
+  Lemma Surv_evict k (c : WC) sp : Inv (c_ts c) sp ->
+    let dt := on_evict ws k (c_data c, c_ts c) in
+    forall lru', exists sp', Surv c (mkC (fst dt) lru' (c_expire c) (snd dt)) sp sp'.
+  Proof.
+    intros H dt lru'. destruct (tc_remove (c_ts c) sp k H) as [H1 H2].
+    exists (mkSp (sp_T sp) (aremove Nat.eqb k (sp_timers sp))). unfold dt, on_evict; cbn [fst snd c_data c_ts].
+    split; [exact H1|]. split; [exact H2|]. split; [reflexivity|].
+    intros x Hx. apply keys_aremove in Hx as [Hx Hne]. split; [assumption|]. cbn [sp_timers].
+    rewrite al_aremove. destruct (Nat.eqb_spec x k); [congruence|reflexivity].
+  Qed.
+
+  Lemma Surv_lru_add k (c : WC) sp : Inv (c_ts c) sp -> exists sp', Surv c (lru_add ws k c) sp sp'.
+  Proof.
+    intro H. unfold lru_add. destruct (c_lru c) as [[limit l]|]; [|exists sp; apply Surv_refl; assumption].
+    destruct (mem k l); [exists sp; apply Surv_same; [reflexivity|reflexivity|assumption]|].
+    destruct (limit <? length (k :: l)); [|exists sp; apply Surv_same; [reflexivity|reflexivity|assumption]].
+    apply (Surv_evict (last (k :: l) k) c sp H).
+  Qed.
+
+  Lemma Surv_lru_remove k (c : WC) sp : Inv (c_ts c) sp -> exists sp', Surv c (lru_remove ws k c) sp sp'.
+  Proof.
+    intro H. unfold lru_remove. destruct (c_lru c) as [[limit l]|]; [|exists sp; apply Surv_refl; assumption].
+    destruct (mem k l); [|exists sp; apply Surv_refl; assumption]. apply (Surv_evict k c sp H).
+  Qed.
+
+  Lemma Surv_cdel k (c : WC) sp : Inv (c_ts c) sp -> exists sp', Surv c (cdel ws k c) sp sp'.
+  Proof.
+    intro H. unfold cdel.
+    set (c0 := mkC (aremove Nat.eqb k (c_data c)) (c_lru c) (c_expire c) (c_ts c)).
+    assert (S0 : Surv c c0 sp sp).
+    { split; [exact H|]. split; [reflexivity|]. split; [reflexivity|]. intros x Hx. unfold c0 in Hx; cbn [c_data] in Hx.
+      apply keys_aremove in Hx. split; [tauto|reflexivity]. }
+    destruct (Surv_lru_remove k c0 sp H) as (sp1 & S1).
+    set (c1 := lru_remove ws k c0) in *. pose proof S1 as (H1 & _).
+    destruct (tc_remove (c_ts c1) sp1 k H1) as [H2 H3].
+    exists (mkSp (sp_T sp1) (aremove Nat.eqb k (sp_timers sp1))).
+    apply (Surv_trans c c0 _ sp sp _ S0). apply (Surv_trans c0 c1 _ sp sp1 _ S1).
+    split; [exact H2|]. split; [exact H3|]. split; [reflexivity|]. cbn [c_data sp_timers].
+    intros x Hx. split; [assumption|]. rewrite al_aremove. destruct (Nat.eqb_spec x k) as [->|]; [|reflexivity].
+    (* x = k is not a key of c1: it was removed from the data before lru_remove *)
+    exfalso. destruct S1 as (_ & _ & _ & S1). destruct (S1 k Hx) as [Hk _]. unfold c0 in Hk; cbn [c_data] in Hk.
+    apply keys_aremove in Hk. tauto.
+  Qed.
+
+  Lemma Surv_expire_all f : forall (c : WC) sp, Inv (c_ts c) sp -> exists sp', Surv c (expire_all ws f c) sp sp'.
+  Proof.
+    induction f as [|kv f IH]; intros c sp H; simpl; [exists sp; apply Surv_refl; assumption|].
+    destruct (Surv_cdel (fst kv) c sp H) as (sp1 & S1). pose proof S1 as (H1 & _).
+    destruct (IH _ sp1 H1) as (sp2 & S2). exists sp2. eapply Surv_trans; eassumption.
+  Qed.
+
+  (* exactly the named keys disappear *)
+  Lemma cdel_keys k (c : WC) x : In x (keys (c_data (cdel ws k c))) <-> In x (keys (c_data c)) /\ x <> k.
+  Proof.
+    unfold cdel, lru_remove. cbn [c_data c_lru c_expire c_ts].
+    destruct (c_lru c) as [[limit l]|]; cbn [c_data].
+    - destruct (mem k l); unfold on_evict; cbn [c_data fst snd]; rewrite ?keys_aremove; tauto.
+    - rewrite keys_aremove. tauto.
+  Qed.
+
+  Lemma expire_all_keys f : forall (c : WC) x,
+    In x (keys (c_data (expire_all ws f c))) <-> In x (keys (c_data c)) /\ ~ In x (map fst f).
+  Proof.
+    induction f as [|kv f IH]; intros c x; simpl; [tauto|]. rewrite IH, cdel_keys. intuition congruence.
+  Qed.
+
+  (* ---- ghost: tick count and, per key, (tick, jittered delay) of its last Set ---- *)
+  Definition ghost := list (nat * (nat * Z)).
+
+  Definition gstep (T : nat) (G : ghost) (c : WC) (o : cop) : nat * ghost :=
+    match o with
+    | KSet k _ j | KSetX k _ _ j => (T, aset Nat.eqb k (T, j) G)
+    | KTake k (Some _) j =>
+        match alookup Nat.eqb k (c_data c) with None => (T, aset Nat.eqb k (T, j) G) | Some _ => (T, G) end
+    | KTick => (S T, G)
+    | _ => (T, G)
+    end.
+
+  Fixpoint grun (T : nat) (G : ghost) (c : WC) (ops : list cop) : nat * ghost * WC :=
+    match ops with
+    | [] => (T, G, c)
+    | o :: r => let (T', G') := gstep T G c o in grun T' G' (fst (fst (cstep ws c o))) r
+    end.
+
+  (* the invariant: C10's wheel invariant against an abstract timer in which every stored key is due
+     exactly floor(j / I) ticks after its last Set *)
+  Definition J (c : WC) (sp : sst) (T : nat) (G : ghost) : Prop :=
+    Inv (c_ts c) sp /\ interval (c_ts c) = I /\ sp_T sp = T /\ CInv c /\
+    forall k, In k (keys (c_data c)) ->
+      exists v T0 j, alookup Nat.eqb k G = Some (T0, j) /\
+                     alookup Nat.eqb k (sp_timers sp) = Some (v, T0 + steps_of I j).
+
+  Lemma J_surv c c' sp sp' T G : J c sp T G -> Surv c c' sp sp' -> CInv c' -> J c' sp' T G.
+  Proof.
+    intros (H1 & H2 & H3 & H4 & H5) (S1 & S2 & S3 & S4) HC. split; [assumption|]. split; [congruence|]. split; [congruence|].
+    split; [assumption|]. intros k Hk. destruct (S4 k Hk) as [Hk' E]. destruct (H5 k Hk') as (v & T0 & j & G1 & G2).
+    exists v, T0, j. split; [assumption|congruence].
+  Qed.
+
+  Lemma in_keys_al (m : list (nat * nat)) k : In k (keys m) <-> alookup Nat.eqb k m <> None.
+  Proof.
+    unfold keys. split.
+    - intros Hin E. apply al_None in E. contradiction.
+    - intro Hne. destruct (in_dec Nat.eq_dec k (map fst m)) as [|Hn]; [assumption|]. apply al_None in Hn. contradiction.
+  Qed.
+
+  Lemma lru_add_has k (c : WC) : PreInv k c -> In k (keys (c_data (lru_add ws k c))).
+  Proof.
+    intro HP. pose proof (lru_add_inv ws k c HP) as (_ & HC). destruct HP as (Hnd & Hk & H).
+    unfold lru_add in *. destruct (c_lru c) as [[limit l]|] eqn:El; [|rewrite El in *; assumption].
+    destruct H as (Hlim & Hndl & Hlen & Hsame).
+    destruct (mem k l) eqn:Hm; cbn [c_data c_lru] in *; [assumption|].
+    assert (Hnk : ~ In k l) by (rewrite <- mem_In; congruence).
+    change (length (k :: l)) with (S (length l)) in *.
+    destruct (Nat.ltb_spec limit (S (length l))) as [Hfull|Hroom]; unfold on_evict in *; cbn [c_data c_lru fst snd] in *; [|assumption].
+    apply keys_aremove. split; [assumption|].
+    destruct l as [|a r]; [simpl in *; lia|]. change (last (k :: a :: r) k) with (last (a :: r) k).
+    destruct (exists_last (l := a :: r)) as (r' & z & E); [discriminate|]. rewrite E, last_last.
+    intros ->. apply Hnk. rewrite E. apply in_or_app. right. left. reflexivity.
+  Qed.
+
+  (* SetWithExpire with a delay of at least one interval *)
+  Lemma J_cset c sp T G k v j : J c sp T G -> (Z.pos I <= j)%Z ->
+    exists sp', J (cset ws k v j c) sp' T (aset Nat.eqb k (T, j) G).
+  Proof.
+    intros HJ Hj. pose proof HJ as (H1 & H2 & H3 & H4 & H5).
+    unfold cset. set (ok := match alookup Nat.eqb k (c_data c) with Some _ => true | None => false end).
+    set (c0 := mkC (aset Nat.eqb k v (c_data c)) (c_lru c) (c_expire c) (c_ts c)).
+    assert (HP : PreInv k c0).
+    { destruct H4 as (Hnd & H). unfold PreInv, c0; cbn [c_data c_lru]. split; [apply aset_NoDup; assumption|].
+      split; [apply (keys_aset k v); auto|].
+      destruct (c_lru c) as [[limit l]|]; [|exact Logic.I]. destruct H as (A1 & A2 & A3 & A4). repeat split; try assumption.
+      - intro Hx. apply (keys_aset k v). right. apply A4. assumption.
+      - intro Hx. apply (keys_aset k v) in Hx as [->|Hx]; [congruence|]. apply A4. assumption. }
+    pose proof (lru_add_inv ws k c0 HP) as HC1. pose proof (lru_add_has k c0 HP) as Hk1.
+    destruct (Surv_lru_add k c0 sp H1) as (sp1 & S1). set (c1 := lru_add ws k c0) in *.
+    destruct S1 as (I1 & I2 & I3 & I4). cbn [c_ts c0] in I2.
+    assert (Hj0 : (j <=? 0)%Z = false) by (apply Z.leb_gt; lia).
+    assert (Hint1 : interval (c_ts c1) = I) by congruence.
+    (* the timer call *)
+    assert (Hstep : exists sp2, Inv (fst (timer_call ws (c_ts c1) (if ok then OMove k j else OSet k v j))) sp2 /\
+              snd (timer_call ws (c_ts c1) (if ok then OMove k j else OSet k v j)) = [] /\
+              interval (fst (timer_call ws (c_ts c1) (if ok then OMove k j else OSet k v j))) = I /\
+              sp_T sp2 = T /\
+              (exists v', alookup Nat.eqb k (sp_timers sp2) = Some (v', T + steps_of I j)) /\
+              (forall x, x <> k -> alookup Nat.eqb x (sp_timers sp2) = alookup Nat.eqb x (sp_timers sp1))).
+    { destruct ok eqn:Eok; unfold timer_call; rewrite Hj0.
+      - (* the key was stored: it has a timer, MoveTimer re-schedules it *)
+        assert (Hin : In k (keys (c_data c))).
+        { unfold ok in Eok. apply in_keys_al. destruct (alookup Nat.eqb k (c_data c)); congruence. }
+        destruct (H5 k Hin) as (v0 & T0 & j0 & _ & Hsp). destruct (I4 k Hk1) as [_ E1]. rewrite Hsp in E1.
+        destruct (Inv_move (c_ts c1) sp1 k j I1) as [M1 M2]; [rewrite Hint1; assumption|].
+        rewrite Hint1 in M1. cbn [sstep] in M1. rewrite E1 in M1. cbn [fst] in M1.
+        eexists. split; [exact M1|]. split; [exact M2|].
+        split; [rewrite (step_ok_interval (c_ts c1) (OMove k j)); assumption|].
+        cbn [sp_T sp_timers]. split; [congruence|]. split.
+        + exists v0. rewrite al_aset, Nat.eqb_refl. do 2 f_equal. congruence.
+        + intros x Hx. rewrite al_aset. destruct (Nat.eqb_spec x k); [congruence|reflexivity].
+      - pose proof (Inv_set (c_ts c1) sp1 k v j I1) as M1. rewrite Hint1 in M1. cbn [sstep fst] in M1.
+        assert (Ecl : clamp I j = j) by (unfold clamp; destruct (Z.ltb_spec j (Z.pos I)); [lia|reflexivity]).
+        rewrite Ecl in M1. eexists. split; [exact M1|]. split; [reflexivity|].
+        split; [rewrite (step_ok_interval (c_ts c1) (OSet k v j)); assumption|].
+        cbn [sp_T sp_timers]. split; [congruence|]. split.
+        + exists v. rewrite al_aset, Nat.eqb_refl. do 2 f_equal. congruence.
+        + intros x Hx. rewrite al_aset. destruct (Nat.eqb_spec x k); [congruence|reflexivity]. }
+    destruct Hstep as (sp2 & M1 & M2 & M3 & M4 & (v' & M5) & M6).
+    rewrite M2. cbn [expire_all fold_left]. exists sp2.
+    split; [exact M1|]. split; [exact M3|]. split; [exact M4|]. split; [exact HC1|]. cbn [c_data].
+    intros x Hx. destruct (Nat.eq_dec x k) as [->|Hne].
+    - exists v', T, j. rewrite al_aset, Nat.eqb_refl. auto.
+    - destruct (I4 x Hx) as [Hx0 E1]. unfold c0 in Hx0; cbn [c_data] in Hx0.
+      apply (keys_aset k v) in Hx0 as [->|Hx0]; [congruence|].
+      destruct (H5 x Hx0) as (v0 & T0 & j0 & G1 & G2). exists v0, T0, j0.
+      rewrite al_aset. destruct (Nat.eqb_spec x k); [congruence|]. split; [assumption|]. rewrite (M6 x Hne). congruence.
+  Qed.
+
+  Lemma J_cget c sp T G k : J c sp T G -> exists sp', J (fst (cget ws k c)) sp' T G.
+  Proof.
+    intro HJ. pose proof HJ as (H1 & _ & _ & H4 & _). pose proof (cget_inv ws k c H4) as HC.
+    unfold cget in *. destruct (alookup Nat.eqb k (c_data c)); cbn [fst] in *; [|eauto].
+    destruct (Surv_lru_add k c sp H1) as (sp' & S). exists sp'. apply (J_surv c _ sp sp' T G HJ S HC).
+  Qed.
+
+  Lemma J_cdel c sp T G k : J c sp T G -> exists sp', J (cdel ws k c) sp' T G.
+  Proof.
+    intro HJ. pose proof HJ as (H1 & _ & _ & H4 & _). destruct (Surv_cdel k c sp H1) as (sp' & S).
+    exists sp'. apply (J_surv c _ sp sp' T G HJ S). apply cdel_inv. assumption.
+  Qed.
+
+  (* a tick: exactly the stored keys whose due tick it is are dropped *)
+  Lemma J_ctick c sp T G : J c sp T G ->
+    (exists sp', J (ctick ws c) sp' (S T) G) /\
+    forall k, In k (keys (c_data c)) ->
+      (In k (keys (c_data (ctick ws c))) <->
+       forall v T0 j, alookup Nat.eqb k G = Some (T0, j) -> alookup Nat.eqb k (sp_timers sp) = Some (v, T0 + steps_of I j) ->
+                      T0 + steps_of I j <> S T).
+  Proof.
+    intros (H1 & H2 & H3 & H4 & H5). unfold ctick.
+    destruct (Inv_tick (c_ts c) sp H1) as [HI Hperm]. cbn [step_ok].
+    set (tf := on_tick (c_ts c)) in *. cbn [sstep fst snd] in HI, Hperm. rewrite H3 in HI, Hperm.
+    set (sp1 := mkSp (S T) (filter (fun kv => negb (due_now (S T) kv)) (sp_timers sp))) in *.
+    set (c1 := mkC (c_data c) (c_lru c) (c_expire c) (fst tf)).
+    pose proof (i_G _ _ H1) as HG.
+    assert (Hfired : forall k, In k (map fst (snd tf)) <-> exists v, alookup Nat.eqb k (sp_timers sp) = Some (v, S T)).
+    { intro k. split.
+      - intro Hin. apply in_map_iff in Hin as [[k' v] [E Hin]]. cbn [fst] in E; subst k'.
+        apply (Permutation_in _ Hperm) in Hin. apply in_map_iff in Hin as [[k2 [v2 d2]] [E Hin]].
+        unfold task_of in E; cbn [fst snd] in E. inversion E; subst. apply filter_In in Hin as [Hin Hd].
+        unfold due_now in Hd; cbn [snd] in Hd. apply Nat.eqb_eq in Hd. subst d2. exists v.
+        apply (In_al _ _ _ HG). assumption.
+      - intros [v Hl]. apply al_In in Hl.
+        assert (Hs : In (k, v) (map task_of (filter (due_now (S T)) (sp_timers sp)))).
+        { apply in_map_iff. exists (k, (v, S T)). split; [reflexivity|]. apply filter_In. split; [assumption|].
+          unfold due_now; cbn [snd]. apply Nat.eqb_refl. }
+        apply (Permutation_in _ (Permutation_sym Hperm)) in Hs. apply in_map_iff. exists (k, v). auto. }
+    destruct (Surv_expire_all (snd tf) c1 sp1 HI) as (sp' & S).
+    assert (Hkeys : forall k, In k (keys (c_data (expire_all ws (snd tf) c1))) <->
+                               In k (keys (c_data c)) /\ ~ In k (map fst (snd tf))).
+    { intro k. rewrite expire_all_keys. reflexivity. }
+    split.
+    - exists sp'. destruct S as (S1 & S2 & S3 & S4). split; [assumption|]. split.
+      { rewrite S2. unfold c1; cbn [c_ts]. rewrite <- H2. apply (step_ok_interval (c_ts c) OTick). }
+      split; [rewrite S3; reflexivity|]. split; [apply expire_all_inv; exact H4|].
+      intros k Hk. destruct (S4 k Hk) as [_ E]. apply Hkeys in Hk as [Hk Hnf].
+      destruct (H5 k Hk) as (v & T0 & j & G1 & G2). exists v, T0, j. split; [assumption|].
+      rewrite E. unfold sp1; cbn [sp_timers]. rewrite (al_filter _ _ _ HG), G2. unfold due_now; cbn [snd fst].
+      destruct (Nat.eqb_spec (T0 + steps_of I j) (S T)) as [Ed|]; [|reflexivity].
+      exfalso. apply Hnf. apply Hfired. exists v. rewrite G2, Ed. reflexivity.
+    - intros k Hk. rewrite Hkeys. destruct (H5 k Hk) as (v & T0 & j & G1 & G2). split.
+      + intros [_ Hnf] v' T0' j' G1' G2' Ed. apply Hnf. apply Hfired. exists v'. rewrite G2', Ed. reflexivity.
+      + intro Hall. split; [assumption|]. intro Hf. apply Hfired in Hf as [v' Hl]. rewrite G2 in Hl. inversion Hl.
+        apply (Hall v T0 j G1 G2). assumption.
+  Qed.
+
+  Lemma J_step c sp T G o : J c sp T G -> valid_cop o ->
+    exists sp', J (fst (fst (cstep ws c o))) sp' (fst (gstep T G c o)) (snd (gstep T G c o)).
+  Proof.
+    intros HJ Hv. destruct o; cbn [cstep gstep fst snd valid_cop] in *.
+    - apply (J_cset c sp T G k v j HJ Hv).
+    - apply (J_cset c sp T G k v j HJ Hv).
+    - pose proof (J_cget c sp T G k HJ) as [sp' H]. destruct (cget ws k c). eauto.
+    - apply (J_cdel c sp T G k HJ).
+    - destruct (alookup Nat.eqb k (c_data c)) as [v|] eqn:E.
+      + rewrite (take_cached ws k fetch j c v E). cbn [fst].
+        destruct (J_cget c sp T G k HJ) as [sp' H]. unfold cget in H. rewrite E in H. cbn [fst] in H.
+        exists sp'. destruct fetch; exact H.
+      + destruct fetch as [v|].
+        * rewrite (take_fetches_once_and_caches ws k v j c E). cbn [fst snd]. apply (J_cset c sp T G k v j HJ Hv).
+        * rewrite (take_error_not_cached ws k j c E). cbn [fst snd]. eauto.
+    - destruct (J_ctick c sp T G HJ) as [[sp' H] _]. eauto.
+  Qed.
+
+  Lemma J_run ops : forall c sp T G, J c sp T G -> Forall valid_cop ops ->
+    exists sp', J (snd (grun T G c ops)) sp' (fst (fst (grun T G c ops))) (snd (fst (grun T G c ops))).
+  Proof.
+    induction ops as [|o r IH]; intros c sp T G HJ Hv; simpl; [eauto|].
+    inversion Hv; subst. destruct (J_step c sp T G o HJ H1) as (sp' & HJ').
+    destruct (gstep T G c o) as [T' G']. cbn [fst snd] in HJ'. apply (IH _ sp' T' G' HJ' H2).
+  Qed.
+
+  Lemma grun_crun ops : forall T G c, snd (grun T G c ops) = crun ws c ops.
+  Proof. induction ops as [|o r IH]; intros; simpl; [reflexivity|]. destruct (gstep T G c o). apply IH. Qed.
+
+  Lemma J_init e lim : J (wnew_at I e lim) sinit 0 [].
+  Proof.
+    unfold wnew_at. split; [apply Inv_init; unfold cache_slots; lia|]. split; [reflexivity|]. split; [reflexivity|].
+    split; [apply (CInv_new ws)|]. unfold cnew; cbn [c_data]. intros k Hk. destruct Hk.
+  Qed.
+
+  (* every stored entry has a pending timer in the wheel *)
+  Lemma stored_has_timer e lim ops k : Forall valid_cop ops ->
+    In k (keys (c_data (crun ws (wnew_at I e lim) ops))) ->
+    timer k (timers (c_ts (crun ws (wnew_at I e lim) ops))) <> None.
+  Proof.
+    intros Hv Hk. destruct (J_run ops _ _ _ _ (J_init e lim) Hv) as (sp & HJ & _ & _ & _ & H5).
+    rewrite grun_crun in *. destruct (H5 k Hk) as (v & T0 & j & _ & Hsp).
+    apply (i_F _ _ HJ k). congruence.
+  Qed.
+
+  (* a stored entry is not yet due; and the next tick drops it iff that tick is the one its last Set asked for *)
+  Lemma expiry_history e lim ops : Forall valid_cop ops ->
+    let r := grun 0 [] (wnew_at I e lim) ops in
+    let T := fst (fst r) in let G := snd (fst r) in let c := snd r in
+    forall k, In k (keys (c_data c)) ->
+      exists T0 j, alookup Nat.eqb k G = Some (T0, j) /\ T < T0 + steps_of I j /\
+                   (In k (keys (c_data (ctick ws c))) <-> T0 + steps_of I j <> S T).
+  Proof.
+    intros Hv r T G c k Hk. destruct (J_run ops _ _ _ _ (J_init e lim) Hv) as (sp & HJ).
+    fold r in HJ. fold T G c in HJ. pose proof HJ as (H1 & H2 & H3 & H4 & H5).
+    destruct (H5 k Hk) as (v & T0 & j & G1 & G2). exists T0, j. split; [assumption|]. split.
+    - destruct (timer k (timers (c_ts c))) as [[p id]|] eqn:Et; [|exfalso; apply (i_F _ _ H1 k); congruence].
+      destruct (i_B _ _ H1 k p id Et) as (_ & _ & e0 & _ & _ & _ & _ & Hsp). rewrite G2 in Hsp. inversion Hsp.
+      pose proof (ahead_range (nslots (c_ts c)) (ticked (c_ts c)) p (i_N _ _ H1)). lia.
+    - destruct (J_ctick c sp T G HJ) as [_ Hd]. rewrite (Hd k Hk). split.
+      + intro Hall. apply (Hall v T0 j G1 G2).
+      + intros Hne v' T0' j' G1' G2'. rewrite G1 in G1'. inversion G1'; subst. assumption.
+  Qed.
+End Expiry.
